@@ -193,6 +193,8 @@ func individualAtoms() []*reNode {
 		leaf(`[\x09\x0A\x0D\x20]`, rsOf(9, 10, 13, 32)),
 		leaf(`[^a-z0-9]`, rsNegASCII(rsUnion(rsRange('a', 'z'), rsDigit))),
 		leaf(`[\x01-\x7F]`, rsASCII), leaf(".", rsASCII),
+		// ranges that overlap the surrogate block
+		leaf(`[\xD7FE-\xE001]`, rsRange(0xD7FE, 0xE001)), leaf(`[\xD800-\xD802]`, rsRange(0xD800, 0xD802)), leaf(`[\xDFFE-\xE000]`, rsRange(0xDFFE, 0xE000)), leaf(`[\xD800\xD801]`, rsOf(0xD800, 0xD801)),
 		// negated groups that list characters beyond ASCII, and DEL at the edge of the 7-bit table
 		leaf(`[^\x0100]`, rsNegASCII(rsOf())), leaf(`[^a\x0100]`, rsNegASCII(rsOf('a'))), leaf(`[^\x0370-\x0373z]`, rsNegASCII(rsOf('z'))),
 		leaf(`[^0-9\x00E9\x4E2D-\x4E2F]`, rsNegASCII(rsDigit)), leaf(`[^\x7F]`, rsNegASCII(rsOf(0x7F))), leaf(`[^\x01-\x1F\x7F]`, rsNegASCII(rsUnion(rsRange(1, 0x1F), rsOf(0x7F)))),
